@@ -62,6 +62,9 @@ def main():
         print(o1[-600:], o2[-600:], o3[-600:])
         return 1
     # run the registered check against /repo + change
+    import fcntl
+    lock = open('/tmp/seedtest.lock', 'w')
+    fcntl.flock(lock, fcntl.LOCK_EX)     # one seed at a time in /repo
     rc, out = sh('git -C /repo apply %s' % change, '/repo')
     if rc:
         print('cannot apply to /repo', out)
@@ -71,6 +74,7 @@ def main():
         rc, out = sh('./check %s quick' % prop, VERIF, env)
     finally:
         sh('git -C /repo checkout -- .', '/repo')
+        fcntl.flock(lock, fcntl.LOCK_UN)
     caught = rc == 1 and ('VIOLATION property=%s' % prop) in out
     lines = [l for l in out.splitlines() if l.startswith(('VIOLATION', '  rule', '  key', '  detail'))][:12]
     meta['check'] = {'cmd': './check %s quick (patch applied to /repo, reverted afterwards)' % prop, 'exit': rc, 'caught': caught, 'report': lines}
